@@ -8,6 +8,7 @@ pub mod c01;
 pub mod c02;
 pub mod c03;
 pub mod c04;
+pub mod c07;
 pub mod c09;
 pub mod c12;
 pub mod c15;
@@ -15,7 +16,7 @@ pub mod c16;
 pub mod c17;
 
 pub fn all() -> &'static [PropDef] {
-    static ALL: &[PropDef] = &[c01::DEF, c02::DEF, c03::DEF, c04::DEF, c09::DEF, c12::DEF, c15::DEF, c16::DEF, c17::DEF];
+    static ALL: &[PropDef] = &[c01::DEF, c02::DEF, c03::DEF, c04::DEF, c07::DEF, c09::DEF, c12::DEF, c15::DEF, c16::DEF, c17::DEF];
     ALL
 }
 
